@@ -562,7 +562,7 @@ vbi_page_table_remove_subpages	(vbi_page_table *	pt,
 				 (pt->subpages_size - i)
 				 * sizeof (*pt->subpages));
 
-			pt->subpages[i].last = first_subno;
+			pt->subpages[i].last = first_subno - 1;
 			pt->subpages[i + 1].first = last_subno + 1;
 
 			++pt->subpages_size;
@@ -571,16 +571,17 @@ vbi_page_table_remove_subpages	(vbi_page_table *	pt,
 			continue;
 		}
 
-		if (first_subno > pt->subpages[i].first)
-			pt->subpages[i].first = first_subno;
-
-		if (last_subno < pt->subpages[i].last)
-			pt->subpages[i].last = last_subno;
-
-		if (pt->subpages[i].first > pt->subpages[i].last) {
+		if (first_subno > pt->subpages[i].first) {
+			/* Remove the end of this range. */
+			pt->subpages[i].last = first_subno - 1;
+		} else if (last_subno < pt->subpages[i].last) {
+			/* Remove the start of this range. */
+			pt->subpages[i].first = last_subno + 1;
+		} else {
+			/* Remove the whole range. */
 			memmove (&pt->subpages[i],
 				 &pt->subpages[i + 1],
-				 (pt->subpages_size - i)
+				 (pt->subpages_size - i - 1)
 				 * sizeof (*pt->subpages));
 
 			--pt->subpages_size;
